@@ -183,7 +183,7 @@ FIELDS = [
          version="gfa1", classes={
         "valid": [S("A+,C-"), {"py": "ollist", "a": [["A", "+"], ["C", "-"]]}, S("X-,Y-,Z+")],
         "wrongtype": [I(5), J('{"a": 1}')],
-        "wrongsyntax": [S("A,B"), S("A+ B-"), S("A+;B-"), S("")]}),
+        "wrongsyntax": [S("A,B"), S("A+ B-"), S("A+,B"), S("")]}),
     dict(name="overlaps", kind="pos", dt="alignment_list_gfa1", line="P\tp1\tA+,B-,C+\t1M,1M", version="gfa1",
          classes={
         "valid": [S("1M,2M"), S("*,*"), {"py": "ciglist", "a": ["3M", "2M"]}],
@@ -348,8 +348,10 @@ def run_program(job):
             r, _, exc = guarded(lambda: line.field_to_s(f))
             ev["res"] = r
         elif code == "str":
+            old = line._data.get(f, _MISSING)
             r, text, exc = guarded(lambda: str(line))
             ev["res"] = r
+            ev["kept"] = "T" if line._data.get(f, _MISSING) is old else "F"
             ev["mark"] = bool(r == "ok" and text.split("\t")[-1].startswith("# INVALID"))
         elif code == "validate":
             r, _, exc = guarded(lambda: line.validate())
@@ -392,3 +394,1017 @@ def validate_cases(kind, cases, name, nshards=None):
     if distinct != len(cases):
         raise MachineryError("TraceFields consumed %d states, expected %d cases" % (distinct, len(cases)))
     return rejects, distinct
+
+
+# --------------------------------------------------------------------------
+# C18 (b): programs
+
+def _prog_batches(progs, tier, seed):
+    """Yield (label, jobs): every program with several choices of the representatives."""
+    rnd = random.Random(seed)
+    laxkeys = set(LAX)
+    if tier == "quick":
+        offs = [0, rnd.randint(1, 4)]
+        laxoffs = [rnd.randint(0, 3)]
+    else:
+        offs = [0, 1, 2, 3, 4]
+        laxoffs = [0, 1, 2, 3]
+    n = 0
+    for off in offs:
+        jobs = []
+        for p in progs:
+            jobs.append((n, p[0], p[1], p[2], off, False))
+            n += 1
+        yield "off%d" % off, jobs
+    for off in laxoffs:
+        jobs = []
+        for p in progs:
+            if p[1] in laxkeys and any(c == "set.wrongsyntax" for c in p[2]):
+                jobs.append((n, p[0], p[1], p[2], off, True))
+                n += 1
+        yield "lax%d" % off, jobs
+
+
+def _prog_signature(case, vals, clauses, at):
+    """Group key of a rejected program: clause, field, the value last assigned before the
+    rejected call, the rejected call."""
+    ev = case["ev"]
+    last = None
+    for e, v in zip(ev[:at], vals[:at]):
+        if e["k"] == "set":
+            last = (e["c"], v[0])
+    call = ev[at - 1]["k"]
+    return (",".join(clauses), case["f"], json.dumps(last), call)
+
+
+def check_programs(out, tier, seed, fields=None, maxlen=None):
+    fields = fields or FIELDS
+    maxlen = maxlen or (3 if tier == "quick" else 4)
+    # the statements on the specification itself
+    o1 = run_mc("props", abstract_fields_for_props(), 3 if tier == "quick" else 4, "fields-mc-props")
+    o2 = run_mc("equiv", abstract_fields_for_props(), 3 if tier == "quick" else 4, "fields-mc-equiv")
+    s1, s2 = tlc.stats(o1), tlc.stats(o2)
+    progs, s3 = enum_programs(fields, maxlen, "fields-mc-enum")
+    out.add_cov(states=s1[1] + s2[1] + s3[1], transitions=s1[0] + s2[0] + s3[0],
+                spec_states_statements=s1[1], spec_states_equivalence=s2[1], programs_enumerated=len(progs),
+                program_depth=maxlen, fields=len(fields))
+    groups = {}
+    ncases = 0
+    nontrivial = set()
+    for label, jobs in _prog_batches(progs, tier, seed):
+        if not jobs:
+            continue
+        res = _pmap(run_program, jobs)
+        cases = [r[0] for r in res]
+        rejects, n = validate_cases("prog", cases, "fields-prog-" + label)
+        ncases += n
+        byid = {r[0]["id"]: r for r in res}
+        for c, vals in res:
+            # non-trivial: an invalid value was stored and something was called afterwards
+            st = [i for i, e in enumerate(c["ev"]) if e["k"] == "set" and e["c"] != "valid" and e["res"] == "ok"]
+            if st and st[0] < len(c["ev"]) - 1:
+                nontrivial.add((c["lvl"], c["f"], tuple(e["k"] + e["c"] for e in c["ev"])))
+        for cid, (clauses, at) in rejects.items():
+            c, vals = byid[cid]
+            key = _prog_signature(c, vals, clauses, at)
+            g = groups.setdefault(key, dict(n=0, levels=set(), ex=None))
+            g["n"] += 1
+            g["levels"].add(c["lvl"])
+            job = jobs[cid - jobs[0][0]]
+            if g["ex"] is None or len(job[3]) < len(g["ex"][0][3]):
+                g["ex"] = (job, c, vals, clauses, at)
+        if len(out.samples) < 3 and res:
+            c, vals = res[len(res) // 2]
+            out.samples.append({"program": [e["k"] + ("." + e["c"] if e["k"] == "set" else "") for e in c["ev"]],
+                                "level": c["lvl"], "field": c["f"],
+                                "observed": [[e["res"], e["mark"], e["kept"]] for e in c["ev"]]})
+    out.add_cov(traces_validated_against_impl=ncases, program_cases=ncases,
+                programs_nontrivial=len(nontrivial))
+    for key, g in sorted(groups.items()):
+        job, c, vals, clauses, at = g["ex"]
+        fd = field_by_key(c["f"])
+        last = json.loads(key[2])
+        calls = []
+        for e, v in zip(c["ev"], vals):
+            calls.append("%s%s -> %s%s" % (e["k"], ("(%s %s)" % (e["c"], json.dumps(v[0]))) if e["k"] == "set" else "",
+                                           e["res"], (":" + v[1]) if v[1] else ""))
+        out.violations.append(dict(
+            family=FAM, kind="prog", clauses=list(clauses),
+            input="line=%r field=%s set=%s then=%s" % (fd["line"], fd["name"], json.dumps(last), key[3]),
+            api="Line.set/get/field_to_s/str/validate", levels=sorted(g["levels"]), occurrences=g["n"],
+            program=dict(lvl=job[1], key=job[2], codes=list(job[3]), offset=job[4], lax=job[5]),
+            rejected_call=at, calls=calls,
+            what="%s: %s at vlevel %s; %d programs" % (",".join(clauses), "; ".join(calls), sorted(g["levels"]), g["n"])))
+    return ncases
+
+
+# --------------------------------------------------------------------------
+# C18 (a): the same document at levels 0..3
+
+EXTRA_DOCS = [
+    ["H\txx:i:1", "H\txx:i:2"],
+    ["H\txx:i:1", "H\txx:i:2", "H\txx:i:3"],
+    ["H\tVN:Z:1.0", "H\txx:Z:a", "H\txx:Z:b", "S\tA\t*"],
+    ["H\tVN:Z:2.0", "H\tTS:i:10", "H\tTS:i:10"],
+    ['S\tA\t*\txi:i:1\txf:f:0.5\txz:Z:a b\txa:A:c\txj:J:{"a": [1, 2]}\txh:H:0AFF\txb:B:c,1,-1',
+     'S\tB\t*\txb:B:f,1.5,2.0\txj:J:["x", null]', "L\tA\t+\tB\t-\t2M\txb:B:S,1,300"],
+    ["S\tA\tACGT\tLN:i:4", "S\tB\t*\tLN:i:6", "L\tA\t+\tB\t-\t2M", "P\tp\tA+,B-\t2M"],
+    ["S\ta\t4\tACGT", "S\tb\t6\t*", "E\te1\ta+\tb-\t0\t2\t4\t6$\t1,2\tTS:i:2", "F\ta\tx+\t0\t2\t0\t2\t*",
+     "G\tg1\ta+\tb-\t10\t*", "U\tu1\ta b", "U\tu1\te1\txx:i:1", "O\to1\ta+ e1+ b-", "X\tcustom\t1\txx:Z:a",
+     "# a comment"],
+    ["L\tA\t+\tB\t-\t2M", "P\tp\tA+,B-\t2M"],
+    ["U\tu1\ta e1 g1", "O\to2\to1- c+"],
+]
+
+
+def _split_written(text):
+    out = []
+    for ln in text.split("\n"):
+        if ln == "":
+            continue
+        f = ln.split("\t")
+        n = len(f)
+        while n > 1 and project.TAG_RE.match(f[n - 1]):
+            n -= 1
+        out.append({"pos": f[:n], "tags": f[n:]})
+    return out
+
+
+def run_doc(job):
+    cid, doc = job
+    gfapy = _load_gfapy()
+    rs = []
+    for lvl in range(4):
+        r, gfa, exc = guarded(lambda: gfapy.Gfa(vlevel=lvl))
+        nadded = 0
+        if r == "ok":
+            for ln in doc:
+                r, _, exc = guarded(lambda: gfa.add_line(ln))
+                if r != "ok":
+                    break
+                nadded += 1
+        lines, dig = [], "-"
+        if r == "ok":
+            r, text, exc = guarded(lambda: str(gfa))
+            if r == "ok":
+                lines = _split_written(text)
+                r2, obs, exc2 = guarded(lambda: project.observe(gfa, project.Pool(), ()), limit=20.0)
+                dig = obs.get("dig", "!" + obs.get("broken", "?")) if r2 == "ok" else "!" + exc2
+        rs.append({"res": r, "lines": lines, "dig": dig, "exc": exc, "nadded": nadded})
+    return {"id": cid, "r": [{k: v for k, v in x.items() if k in ("res", "lines", "dig")} for x in rs]}, \
+           [[x["res"], x["exc"], x["nadded"]] for x in rs]
+
+
+def level_docs(tier, seed):
+    rnd = random.Random(seed + 18)
+    docs = [list(d) for d in EXTRA_DOCS]
+    for name, cat in sorted(CATALOGUES.items()):
+        lines = [text_of(x) for x in cat["lines"]]
+        docs += [[x] for x in lines]
+        segs = [x for x in lines if x.startswith("S\t")]
+        for x in lines:
+            if not x.startswith("S\t"):
+                docs.append(segs + [x])
+        n = 120 if tier == "quick" else 2500
+        for _ in range(n):
+            k = rnd.randint(2, min(len(lines), 10))
+            docs.append(rnd.sample(lines, k))
+    seen, res = set(), []
+    for d in docs:
+        t = tuple(d)
+        if t not in seen:
+            seen.add(t)
+            res.append(d)
+    return res
+
+
+def check_levels(out, tier, seed):
+    docs = level_docs(tier, seed)
+    res = _pmap(run_doc, list(enumerate(docs)))
+    cases = [r[0] for r in res]
+    rejects, n = validate_cases("lvl", cases, "fields-lvl")
+    nontriv = sum(1 for c, info in res if c["r"][3]["res"] == "ok" and len(docs[c["id"]]) >= 2)
+    out.add_cov(traces_validated_against_impl=n, level_documents=len(docs), level_documents_accepted_at_3=nontriv)
+    for cid, (clauses, _) in sorted(rejects.items()):
+        c, info = res[cid]
+        out.violations.append(dict(
+            family=FAM, kind="lvl", clauses=list(clauses), input="\n".join(docs[cid]), api="Gfa.add_line x vlevel 0..3",
+            doc=docs[cid], per_level=info,
+            what="%s: %r -> %s" % (",".join(clauses), docs[cid], info)))
+    if docs:
+        c, info = res[len(EXTRA_DOCS) - 4]
+        out.samples.append({"document": docs[c["id"]], "per_level": info})
+    return n
+
+
+def check_c18(out, tier, seed):
+    check_programs(out, tier, seed)
+    check_levels(out, tier, seed)
+    out.assumptions += [
+        "TLC and the TLA+ semantics of spec/Fields.tla, MC_Fields.tla, TraceFields.tla",
+        "the value-class table FIELDS of harness/fam_fields.py (which concrete values are valid / wrong type / "
+        "wrong syntax / out of range for each field datatype) is my reading of the GFA specifications",
+        "value-object identity (`is`) is used to observe whether an assignment replaced the stored value",
+        "programs are bounded in length; documents are drawn from the catalogues of harness/core.py plus EXTRA_DOCS; "
+        "'valid input' for the level comparison = accepted at level 3; values are spelled canonically "
+        "(lazily parsed J/B/f values are written verbatim at level 0)",
+        "level 0: a Get (or the marked str) may replace an invalid encoded value by its decoded object "
+        "(doc/tutorial/validation.rst: no validation at level 0)",
+    ]
+
+
+# --------------------------------------------------------------------------
+# C19: clone
+
+DT_LINES1 = ['S\tA\t*\txi:i:7\txf:f:1.5\txz:Z:a str\txa:A:c\txj:J:{"a": [1, {"b": "c"}], "d": {"e": [2]}}'
+             '\txh:H:0AFF\txb:B:c,1,-1\txg:B:f,1.5,2.5',
+             "S\tB\tACGT\tLN:i:4", "L\tA\t+\tB\t-\t2M1D\tID:Z:l9", "C\tA\t+\tB\t-\t1\t2M",
+             "P\tpx\tA+,B-\t2M1D", "P\tpy\tA+,B-,A+\t2M1D,*\txj:J:[1, [2, 3]]", "# a comment"]
+DT_LINES2 = ['S\ta\t4\tACGT\txj:J:[{"k": [1, 2]}, "s"]\txb:B:S,1,300', "S\tb\t6\t*",
+             "E\te1\ta+\tb-\t0\t2\t4\t6$\t1,2\tTS:i:2", "E\te2\ta+\tb-\t0\t2\t4\t6$\t2M\txh:H:01",
+             "F\ta\tx+\t0\t2\t0\t2$\t1M", "G\tg1\ta+\tb-\t10\t3", "U\tu1\ta e1 g1", "O\to1\ta+ e1+ b-",
+             "X\tcustom\t1\txx:Z:a", "Y\tf1\tf2\txj:J:{\"q\": [1]}", "# gfa2 comment"]
+HDR_DOC = ["H\tVN:Z:1.0", "H\txx:i:1", "H\txx:i:2", 'H\txj:J:[1, 2]', 'H\txj:J:{"a": [3]}', "H\txz:Z:one",
+           "S\tA\t*"]
+HDR_DOC2 = ["H\tVN:Z:1.0", "H\txx:i:1", "H\txx:i:2", "H\txz:Z:one", "H\txz:Z:two", "S\tA\t*"]
+PLACEHOLDER_DOCS = [["L\tA\t+\tB\t-\t2M", "P\tp\tA+,B-\t2M"], ["U\tu1\ta e1 g1", "O\to2\to1- c+"],
+                    ["E\te1\ta+\tb-\t0\t2\t4\t6$\t*", "G\tg1\ta+\tc-\t10\t*"], ["P\tq\tA+,B-,C+\t*"]]
+
+
+def _greedy_doc(lines):
+    """The lines that can be added one after the other without error (in the given order)."""
+    gfapy = _load_gfapy()
+    gfa = gfapy.Gfa(vlevel=1)
+    kept = []
+    for ln in lines:
+        r, _, _ = guarded(lambda: gfa.add_line(ln))
+        if r == "ok":
+            kept.append(ln)
+        else:
+            # a refused line may leave the Gfa half modified: rebuild from the accepted ones
+            gfa = gfapy.Gfa(vlevel=1)
+            for k in kept:
+                gfa.add_line(k)
+    return kept
+
+
+def clone_subjects(tier):
+    """Subject descriptors: dict(mode="conn", doc, idx) -- line number idx of gfa.lines (or
+    "header") of the Gfa built from doc -- or dict(mode="line", text, version)."""
+    gfapy = _load_gfapy()
+    subs = []
+    docs = []
+    for name, cat in sorted(CATALOGUES.items()):
+        lines = [text_of(x) for x in cat["lines"]]
+        docs.append(_greedy_doc(lines))
+        if tier != "quick" or name in ("gfa1", "gfa2"):
+            docs.append(_greedy_doc(list(reversed(lines))))
+        for ln in lines:
+            subs.append(dict(mode="line", text=ln,
+                             version=cat["version"] if cat["version"] in ("gfa1", "gfa2") else None))
+    docs += [DT_LINES1, DT_LINES2, HDR_DOC, HDR_DOC2] + PLACEHOLDER_DOCS
+    for ln in DT_LINES1:
+        subs.append(dict(mode="line", text=ln, version="gfa1"))
+    for ln in DT_LINES2:
+        subs.append(dict(mode="line", text=ln, version="gfa2"))
+    for ln in HDR_DOC[:-1]:
+        subs.append(dict(mode="line", text=ln, version=None))
+    for doc in docs:
+        gfa = gfapy.Gfa(vlevel=1)
+        for ln in doc:
+            gfa.add_line(ln)
+        for i, o in enumerate(gfa.lines):
+            if o.record_type != "H":
+                subs.append(dict(mode="conn", doc=doc, idx=i))
+        if any(ln.startswith("H\t") for ln in doc):
+            subs.append(dict(mode="conn", doc=doc, idx="header"))
+    return subs
+
+
+def get_subject(sub):
+    gfapy = _load_gfapy()
+    if sub["mode"] == "line":
+        ln = gfapy.Line(sub["text"], version=sub["version"]) if sub["version"] else gfapy.Line(sub["text"])
+        return None, ln
+    gfa = gfapy.Gfa(vlevel=1)
+    for ln in sub["doc"]:
+        gfa.add_line(ln)
+    return gfa, (gfa.header if sub["idx"] == "header" else gfa.lines[sub["idx"]])
+
+
+def _text(x):
+    r, t, exc = guarded(lambda: str(x))
+    return t if r == "ok" else "!str:" + r + ":" + exc
+
+
+def _tri(r, v):
+    return ("T" if v else "F") if r == "ok" else r
+
+
+def run_clone(job):
+    cid, sub = job
+    r0, pair, exc0 = guarded(lambda: get_subject(sub))
+    if r0 != "ok":
+        return None, {"exc": [exc0]}
+    gfa, orig = pair
+    ro, to, _ = guarded(lambda: str(orig))
+    rc, cl, exc = guarded(lambda: orig.clone())
+    case = {"id": cid, "conn": gfa is not None, "cl": rc,
+            "o": {"res": ro, "pos": [], "tags": []}, "c": {"res": "ok", "pos": [], "tags": []},
+            "eq": "F", "isconn": "F", "gfa": "none"}
+    info = {"rt": getattr(orig, "record_type", "?"), "virtual": bool(getattr(orig, "virtual", False)),
+            "text": to if ro == "ok" else "", "exc": [exc]}
+    if ro == "ok":
+        w = _split_written(to)
+        case["o"].update(pos=w[0]["pos"] if w else [], tags=w[0]["tags"] if w else [])
+    if rc == "ok":
+        r, t, exc = guarded(lambda: str(cl))
+        info["exc"].append(exc)
+        case["c"]["res"] = r
+        if r == "ok":
+            w = _split_written(t)
+            case["c"].update(pos=w[0]["pos"] if w else [], tags=w[0]["tags"] if w else [])
+            info["ctext"] = t
+        r, v, exc = guarded(lambda: cl == orig)
+        info["exc"].append(exc)
+        case["eq"] = _tri(r, v is True)
+        r, v, exc = guarded(lambda: cl.is_connected())
+        case["isconn"] = _tri(r, bool(v))
+        r, v, exc = guarded(lambda: cl.gfa)
+        case["gfa"] = ("none" if v is None else "some") if r == "ok" else r
+    return case, info
+
+
+# ---- mutable paths
+
+def _repl(v):
+    """A replacement of the same broad type that is written differently."""
+    gfapy = _load_gfapy()
+    if isinstance(v, bool):
+        return not v
+    if isinstance(v, int):
+        return v + 7
+    if isinstance(v, float):
+        return v + 1.5
+    if isinstance(v, str):
+        if v == "+":
+            return "-"
+        if v == "-":
+            return "+"
+        return v + "X"
+    if v is None:
+        return 9
+    if isinstance(v, gfapy.CIGAR.Operation):
+        return gfapy.CIGAR.Operation(v.length + 7, v.code)
+    if isinstance(v, gfapy.OrientedLine):
+        return gfapy.OrientedLine("ZZ", "-" if v.orient == "+" else "+")
+    if isinstance(v, gfapy.LastPos):
+        return gfapy.LastPos(v.value + 7)
+    if isinstance(v, gfapy.CIGAR):
+        return gfapy.CIGAR([gfapy.CIGAR.Operation(9, "M")])
+    if isinstance(v, list):
+        return [9]
+    if isinstance(v, dict):
+        return {"zz": 9}
+    if isinstance(v, (gfapy.Line, gfapy.Placeholder)):
+        return "ZZ"
+    return 9
+
+
+KNOWN_ATTRS = {"Operation": ["length", "code"], "OrientedLine": ["orient", "line"], "LastPos": ["value"]}
+
+
+def _walk(obj, path, out, depth=0):
+    """Append to out every edit (path, action) reachable in the value object obj."""
+    gfapy = _load_gfapy()
+    if depth > 6 or isinstance(obj, (str, bytes, int, float, type(None), gfapy.Line)):
+        return
+    if isinstance(obj, gfapy.FieldArray):
+        out.append((path, ["append"]))                # public list interface of the FieldArray
+        _walk(obj._data, path + [["a", "_data"]], out, depth + 1)
+        return
+    if isinstance(obj, list):
+        for i in range(len(obj)):
+            out.append((path, ["setitem", i]))
+            _walk(obj[i], path + [["i", i]], out, depth + 1)
+        out.append((path, ["append"]))
+        if len(obj) > 1:
+            out.append((path, ["delitem", 0]))
+        return
+    if isinstance(obj, dict):
+        for k in obj:
+            out.append((path, ["setkey", k]))
+            _walk(obj[k], path + [["k", k]], out, depth + 1)
+        out.append((path, ["setkey", "zz_new"]))
+        return
+    names = KNOWN_ATTRS.get(type(obj).__name__)
+    if names is None:
+        names = [n for n in getattr(obj, "__dict__", {})]
+    for n in names:
+        out.append((path, ["setattr", n]))
+        r, v, _ = guarded(lambda: getattr(obj, n))
+        if r == "ok":
+            _walk(v, path + [["a", n]], out, depth + 1)
+
+
+def find_edits(line):
+    """Every in-place edit of the value objects of line._data, and edits through the API."""
+    edits = []
+    for fn in list(line._data.keys()):
+        w = []
+        _walk(line._data[fn], [fn], w)
+        edits += [dict(kind="inplace", path=p, act=a) for p, a in w]
+    for fn in list(line.positional_fieldnames):
+        edits.append(dict(kind="api", path=[fn], act=["set"]))
+    for tn in list(line.tagnames):
+        edits.append(dict(kind="api", path=[tn], act=["set"]))
+        edits.append(dict(kind="api", path=[tn], act=["delete"]))
+    edits.append(dict(kind="api", path=["zz"], act=["set"]))
+    return edits
+
+
+def apply_edit(line, ed):
+    if ed["kind"] == "api":
+        fn = ed["path"][0]
+        if ed["act"][0] == "delete":
+            return line.delete(fn)
+        cur = line._data.get(fn)
+        return line.set(fn, _repl(cur))
+    obj = line._data[ed["path"][0]]
+    for kind, k in ed["path"][1:]:
+        obj = getattr(obj, k) if kind == "a" else obj[k]
+    act = ed["act"]
+    if act[0] == "setitem":
+        obj[act[1]] = _repl(obj[act[1]])
+    elif act[0] == "delitem":
+        del obj[act[1]]
+    elif act[0] == "append":
+        last = None
+        for last in obj:
+            pass
+        obj.append(_repl(last))
+    elif act[0] == "setkey":
+        obj[act[1]] = _repl(obj.get(act[1]))
+    elif act[0] == "setattr":
+        setattr(obj, act[1], _repl(getattr(obj, act[1])))
+    else:
+        raise MachineryError("unknown edit " + repr(ed))
+
+
+def list_edits(job):
+    """(subject index, subject) -> [(subject index, target, edit)] found on a fresh pair."""
+    si, sub = job
+    gfa, orig = get_subject(sub)
+    r, cl, _ = guarded(lambda: orig.clone())
+    res = []
+    for target, ln in (("orig", orig), ("clone", cl if r == "ok" else None)):
+        if ln is None:
+            continue
+        r2, eds, _ = guarded(lambda: find_edits(ln))
+        if r2 == "ok":
+            res += [(si, target, e) for e in eds]
+    return res
+
+
+def run_edit(job):
+    cid, sub, target, ed = job
+    gfa, orig = get_subject(sub)
+    r, cl, exc = guarded(lambda: orig.clone())
+    if r != "ok":
+        return None, {"exc": exc}        # reported by the clone case of this subject
+    tgt, other = (orig, cl) if target == "orig" else (cl, orig)
+    ob, tb = _text(other), _text(tgt)
+    gb = _text(gfa) if gfa is not None else "-"
+    r, _, exc = guarded(lambda: apply_edit(tgt, ed))
+    oa, ta = _text(other), _text(tgt)
+    ga = _text(gfa) if gfa is not None else "-"
+    case = {"id": cid, "conn": gfa is not None, "target": target, "res": r, "ob": ob, "oa": oa, "gb": gb, "ga": ga}
+    return case, {"exc": exc, "tb": tb, "ta": ta}
+
+
+def check_c19(out, tier, seed):
+    _init_worker()
+    o1 = run_mc("props", abstract_fields_for_props(), 3 if tier == "quick" else 4, "fields-mc-props19")
+    s1 = tlc.stats(o1)
+    subs = clone_subjects(tier)
+    res = _pmap(run_clone, list(enumerate(subs)))
+    # a catalogue line that cannot be built on its own is not a subject
+    subs = [s for s, r in zip(subs, res) if r[0] is not None]
+    res = [r for r in res if r[0] is not None]
+    for i, r in enumerate(res):
+        r[0]["id"] = i
+    rejects, n1 = validate_cases("clone", [r[0] for r in res], "fields-clone")
+    rts = sorted({(i["rt"], c["conn"], i["virtual"]) for c, i in res})
+    seen = set()
+    for cid, (clauses, _) in sorted(rejects.items()):
+        c, info = res[cid]
+        if (tuple(clauses), info["text"], c["conn"]) in seen:
+            continue
+        seen.add((tuple(clauses), info["text"], c["conn"]))
+        out.violations.append(dict(
+            family=FAM, kind="clone", clauses=list(clauses), input=info["text"],
+            api="Line.clone (%s)" % ("connected" if c["conn"] else "unconnected"), subject=subs[cid],
+            observed=c, exc=info["exc"],
+            what="%s: clone of %r (%s): %s %s" % (",".join(clauses), info["text"],
+                                                 "connected" if c["conn"] else "unconnected",
+                                                 {k: c[k] for k in ("cl", "eq", "isconn", "gfa")}, info["exc"])))
+    found = _pmap(list_edits, list(enumerate(subs)))
+    jobs = []
+    for lst in found:
+        for si, target, ed in lst:
+            jobs.append((len(jobs), subs[si], target, ed))
+    eres = _pmap(run_edit, jobs)
+    jobs = [j for j, r in zip(jobs, eres) if r[0] is not None]
+    eres = [r for r in eres if r[0] is not None]
+    for i, r in enumerate(eres):
+        r[0]["id"] = i
+    erej, n2 = validate_cases("edit", [r[0] for r in eres], "fields-edit")
+    effective = sum(1 for c, i in eres if i["tb"] != i["ta"])
+    groups = {}
+    for cid, (clauses, _) in sorted(erej.items()):
+        c, info = eres[cid]
+        _, sub, target, ed = jobs[cid]
+        text = sub["text"] if sub["mode"] == "line" else _subject_text(sub)
+        key = (",".join(clauses), text, sub["mode"], target, ed["path"][0], ed["kind"])
+        g = groups.setdefault(key, dict(n=0, ex=None))
+        g["n"] += 1
+        if g["ex"] is None:
+            g["ex"] = (cid, c, info, sub, target, ed)
+    for key, g in sorted(groups.items()):
+        cid, c, info, sub, target, ed = g["ex"]
+        out.violations.append(dict(
+            family=FAM, kind="edit", clauses=key[0].split(","), input=key[1],
+            api="clone + in-place edit (%s, %s)" % ("connected" if c["conn"] else "unconnected", target),
+            subject=sub, target=target, edit=ed, observed=c, exc=info["exc"], occurrences=g["n"],
+            what="%s: %r (%s) edit %s of the %s: other copy %r -> %r; gfa changed: %s (%d edits of this field)" % (
+                key[0], key[1], sub["mode"], json.dumps(ed), target, c["ob"], c["oa"], c["gb"] != c["ga"], g["n"])))
+    out.add_cov(states=s1[1] + n1 + n2, transitions=s1[0] + n1 + n2, spec_states_statements=s1[1],
+                traces_validated_against_impl=n1 + n2, clone_subjects=len(subs), edit_cases=len(jobs),
+                edits_that_changed_their_target=effective, record_kinds=len(rts))
+    for c, i in res[:2]:
+        out.samples.append({"clone of": i["text"], "observed": {k: c[k] for k in ("cl", "eq", "isconn", "gfa")}})
+    for (c, i), j in list(zip(eres, jobs))[:2]:
+        out.samples.append({"edit": j[3], "target": j[2], "target text": [i["tb"], i["ta"]],
+                            "other text": [c["ob"], c["oa"]]})
+    out.assumptions += [
+        "TLC and the TLA+ semantics of spec/Fields.tla (Clone, EditInPlace, frame conditions), TraceFields.tla",
+        "mutable state = what the generic walk of harness/fam_fields.py reaches in Line._data (list / dict / "
+        "attribute edits, FieldArray, API set/delete); sharing is observed through the written text",
+        "subjects: every line of the catalogues of harness/core.py, connected (two arrival orders) and not, "
+        "placeholders, lines carrying every tag datatype, a multi-line header, custom records, comments",
+    ]
+
+
+def _subject_text(sub):
+    gfa, orig = get_subject(sub)
+    return _text(orig)
+
+
+# --------------------------------------------------------------------------
+# C20: values assigned to tags.  Each value = (py: how to build it, v: the abstract
+# descriptor TLC reasons about -- see Fields.tla PART 3).
+
+ZSYM = {"sg": 0, "e": 0, "d": 0}
+
+
+def _vd(k, n=None, fin=True, chars=(), el="none", elems=(), ln=0):
+    return {"k": k, "n": n or ZSYM, "fin": fin, "chars": list(chars), "el": el,
+            "elems": [{"sg": a, "e": b, "d": c} for a, b, c in elems], "len": ln}
+
+
+def v_int(sg, e, d):
+    return dict(py={"py": "sym", "a": [sg, e, d]}, v=_vd("int", n={"sg": sg, "e": e, "d": d}))
+
+
+def v_float(lit, fin=True):
+    return dict(py=F(lit), v=_vd("float", fin=fin))
+
+
+def v_str(s):
+    return dict(py=S(s), v=_vd("str", chars=s))
+
+
+def v_json(text):
+    k = "dict" if text.startswith("{") else "list"
+    return dict(py=J(text), v=_vd(k))
+
+
+def v_ints(elems, array):
+    py = {"py": "symlist", "a": [list(x) for x in elems]}
+    return dict(py=NA(py) if array else py,
+                v=_vd("numarray" if array else "numlist", el="int" if elems else "none", elems=elems, ln=len(elems)))
+
+
+def v_floats(lits, fin, array):
+    py = {"py": "floatlist", "a": list(lits)}
+    return dict(py=NA(py) if array else py,
+                v=_vd("numarray" if array else "numlist", fin=fin, el="float" if lits else "none", ln=len(lits)))
+
+
+def v_mixed(array):
+    py = J("[1, 2.5]")
+    return dict(py=NA(py) if array else py, v=_vd("numarray" if array else "numlist", el="mixed", ln=2))
+
+
+def v_bytes(lst):
+    return dict(py={"py": "ba", "a": list(lst)}, v=_vd("bytearray", ln=len(lst)))
+
+
+def sym_universe(tier):
+    ds = (-1, 0, 1) if tier == "quick" else (-2, -1, 0, 1, 2)
+    es = (7, 8, 15, 16, 31, 32) if tier == "quick" else (7, 8, 15, 16, 31, 32, 63)
+    u = [(0, 0, d) for d in ds]
+    for e in es:
+        for d in ds:
+            u.append((1, e, d))
+            u.append((-1, e, d))
+    return u
+
+
+def _symval(x):
+    return x[0] * 2 ** x[1] + x[2]
+
+
+FLOATS = ["0.0", "-0.0", "1.5", "-2.5", "0.1", "3.0", "1e300", "-1e-300", "5e-324", "1e16", "1e-7", "1e22",
+          "123456789.125", "2.2250738585072014e-308", "1.7976931348623157e308", "-1.7976931348623157e308",
+          "0.30000000000000004", "1e-5", "12345678901234567890.0"]
+NONFINITE = ["inf", "-inf", "nan"]
+ZSTRS = ["abc", "a b", "~", " ", "!\"#$%&'()*+,-./:;<=>?@[\\]^_`{|}", "x" * 60, "a:b:c", "1", "[1]",
+         "a\tb", "a\nb", "abc\n", "\n", "", "\x01", "\x7f", "café", "a\rb", " "]
+ASTRS = ["a", "~", "!", "1", " ", "ab", "", "\t", "\n", "a\n", "é"]
+JSONS = ['{"a": 1}', '{"a": [1, {"b": "c"}], "d": null, "e": true, "f": 1.5}', '[1, "x"]', '["a\\tb"]',
+         '["caf\\u00e9"]', '["\\"q\\" \\\\ /"]', '{}', '[[]]', '[{"k": []}]', '["a\\nb", "\\u0001"]',
+         '{"nested": {"deep": {"deeper": [1, 2, {"x": "y"}]}}}', '["1e5", 100000000000000000000]']
+JSTRS = ['{"a": 1}', '[1,2]', '[]', '{"k": [1, {"z": null}]}', 'abc', '{"a":\t1}', '', '{', '[1,', '1', '"s"']
+ISTRS = ["5", "-5", "+5", "007", "0", "5.0", "", "abc", " 5", "1_0", "5 ", "0x10", "-", "1e3"]
+FSTRS = ["1.5", "-1e-3", ".5", "3", "+2.5E+3", "1.", "inf", "nan", "abc", "", "1e", "0x1p3", "1_0.5", " 1.5", "-.5e-10"]
+BSTRS = ["c,1,-1", "C,255", "s,-32768", "f,1.5,2", "S,65535", "i,-5", "c,128", "C,256", "C,-1", "s,40000",
+         "x,1", "c,", "c", "", "i,1.5", "f,abc", "c,-129", "S,65536", "f", "c,1,,2"]
+HSTRS = ["00", "0AFF", "ABCDEF", "0af0", "ABC", "", "GG", "0A F0", "A"]
+BYTES = [[0], [255], [1, 2, 3], [0, 0], list(range(16)), []]
+
+
+def c20_values(tier, seed):
+    """-> list of (value, modes)."""
+    rnd = random.Random(seed + 20)
+    vals = []
+    U = sym_universe(tier)
+    for x in U:
+        vals.append((v_int(*x), ["new", "i"]))
+    vals.append((v_int(1, 64, 0), ["new", "i"]))
+    vals.append((v_int(-1, 64, -1), ["new", "i"]))
+    for s in ISTRS:
+        vals.append((v_str(s), ["i"]))
+    for lit in FLOATS:
+        vals.append((v_float(lit), ["new", "f"]))
+    for lit in NONFINITE:
+        vals.append((v_float(lit, fin=False), ["new", "f"]))
+    for s in FSTRS:
+        vals.append((v_str(s), ["f"]))
+    for s in ZSTRS:
+        vals.append((v_str(s), ["new", "Z"]))
+    for s in ASTRS:
+        vals.append((v_str(s), ["A"]))
+    for t in JSONS:
+        vals.append((v_json(t), ["new", "J"]))
+    for s in JSTRS:
+        vals.append((v_str(s), ["J"]))
+    # numeric arrays: every range [lo, hi] over the symbolic universe (sampled in the quick tier)
+    Us = sorted(U, key=_symval)
+    pairs = [(a, b) for i, a in enumerate(Us) for b in Us[i:]]
+    if tier == "quick":
+        keep = [p for p in pairs if p[0][2] in (-1, 0) and p[1][2] in (-1, 0)]
+        rest = [p for p in pairs if p not in keep]
+        pairs = keep + rnd.sample(rest, min(len(rest), 150))
+    for lo, hi in pairs:
+        elems = [lo, hi] if lo != hi else [lo]
+        if rnd.random() < 0.5:
+            elems = list(reversed(elems))
+        if rnd.random() < 0.3:
+            elems = elems + [elems[0]]
+        arr = rnd.random() < 0.5
+        vals.append((v_ints(elems, arr), ["new", "B"]))
+        if tier != "quick":
+            vals.append((v_ints(elems, not arr), ["new", "B"]))
+    for arr in (False, True):
+        vals.append((v_ints([], arr), ["new", "B"]))
+        vals.append((v_mixed(arr), ["new", "B"]))
+        vals.append((v_floats(["1.5", "2.5"], True, arr), ["new", "B"]))
+        vals.append((v_floats(["0.0"], True, arr), ["new", "B"]))
+        vals.append((v_floats(["1e300", "-1.5", "5e-324"], True, arr), ["new", "B"]))
+        vals.append((v_floats(["inf"], False, arr), ["new", "B"]))
+        vals.append((v_floats(["1.0", "nan"], False, arr), ["new", "B"]))
+    vals.append((v_ints([(0, 0, 1), (0, 0, 2)], False), ["J"]))
+    vals.append((v_floats(["1.5"], True, False), ["J"]))
+    for s in BSTRS:
+        vals.append((v_str(s), ["B"]))
+    for b in BYTES:
+        vals.append((v_bytes(b), ["new", "H"]))
+    for s in HSTRS:
+        vals.append((v_str(s), ["H"]))
+    return vals
+
+
+def run_value(job):
+    cid, lvl, mode, val = job
+    import math
+    gfapy = _load_gfapy()
+    line = gfapy.Line("S\tA\t*", vlevel=lvl)
+    tag = "xx"
+    exc = []
+    if mode != "new":
+        r, _, e = guarded(lambda: line.set_datatype(tag, mode))
+        if r != "ok":
+            raise MachineryError("set_datatype(%s) failed: %s" % (mode, e))
+    v = mk(val["py"])
+    if val["v"]["k"] == "float" and math.isfinite(v) != val["v"]["fin"]:
+        raise MachineryError("value table: finiteness of %r" % (val["py"],))
+    case = {"id": cid, "lvl": lvl, "mode": mode, "v": val["v"], "set": "ok", "dt": "-", "val": "-", "vf": "-",
+            "w": "-", "wchars": [], "s": "-", "mark": False,
+            "rb": {"res": "-", "dt": "-", "eq": "-", "eqv": "-"}}
+    r, _, e = guarded(lambda: line.set(tag, v))
+    exc.append(e)
+    case["set"] = r
+    text = None
+    if r == "ok" and tag in line._data:
+        r, dt, e = guarded(lambda: line.get_datatype(tag))
+        exc.append(e)
+        case["dt"] = dt if r == "ok" else "!" + r
+        r, _, e = guarded(lambda: line.validate_field(tag))
+        exc.append(e)
+        case["vf"] = r
+        r, _, e = guarded(lambda: line.validate())
+        exc.append(e)
+        case["val"] = r
+        r, w, e = guarded(lambda: line.field_to_s(tag, tag=True))
+        exc.append(e)
+        case["w"] = r
+        if r == "ok":
+            case["wchars"] = list(w)
+        r, text, e = guarded(lambda: str(line))
+        exc.append(e)
+        case["s"] = r
+        case["mark"] = bool(r == "ok" and text.split("\t")[-1].startswith("# INVALID"))
+        if r == "ok" and not case["mark"]:
+            def readback():
+                l2 = gfapy.Line(text, vlevel=lvl)
+                return l2.get(tag), l2.get_datatype(tag)
+            r, got, e = guarded(readback)
+            exc.append(e)
+            case["rb"]["res"] = r
+            if r == "ok":
+                v2, dt2 = got
+                case["rb"]["dt"] = str(dt2)
+                r3, cur, e = guarded(lambda: line.get(tag))
+
+                def same(a, b):
+                    if isinstance(a, float) and isinstance(b, float):
+                        return a == b and repr(a) == repr(b)
+                    return bool(a == b)
+                case["rb"]["eq"] = _tri(r3, r3 == "ok" and same(v2, cur))
+                if not (isinstance(v, str) and dt2 not in ("Z", "A")):
+                    case["rb"]["eqv"] = "T" if same(v2, v) else "F"
+    return case, {"exc": exc, "text": text}
+
+
+def check_c20(out, tier, seed):
+    vals = c20_values(tier, seed)
+    jobs = []
+    for val, modes in vals:
+        for mode in modes:
+            for lvl in range(4):
+                jobs.append((len(jobs), lvl, mode, val))
+    res = _pmap(run_value, jobs)
+    rejects, n = validate_cases("val", [r[0] for r in res], "fields-val")
+    nontrivial = set()
+    for (c, info), j in zip(res, jobs):
+        if c["rb"]["res"] == "ok":
+            nontrivial.add((json.dumps(j[3]["py"]), j[2]))
+    groups = {}
+    for cid, (clauses, _) in sorted(rejects.items()):
+        c, info = res[cid]
+        _, lvl, mode, val = jobs[cid]
+        # one violation per (clauses, kind of value, tag mode, what was observed); numeric arrays of
+        # integers differ only in their elements, strings and floats are kept apart by value
+        kind = val["v"]["k"] + "/" + val["v"]["el"]
+        ident = kind if val["v"]["el"] == "int" else json.dumps(val["py"])
+        pattern = (c["set"], c["vf"], c["val"], c["w"], c["s"], c["mark"], c["rb"]["res"], c["rb"]["eq"], c["rb"]["eqv"])
+        key = (",".join(clauses), ident, mode, pattern)
+        g = groups.setdefault(key, dict(levels=set(), n=0, ex=None))
+        g["levels"].add(lvl)
+        g["n"] += 1
+        if g["ex"] is None:
+            g["ex"] = (cid, c, info)
+    for key, g in sorted(groups.items(), key=lambda kv: (kv[0][0], kv[0][1], kv[0][2], str(kv[0][3]))):
+        cid, c, info = g["ex"]
+        obs = {k: c[k] for k in ("set", "dt", "vf", "val", "w", "s", "mark", "rb")}
+        obs["written"] = "".join(c["wchars"])
+        pyv = json.dumps(jobs[cid][3]["py"])
+        out.violations.append(dict(
+            family=FAM, kind="val", clauses=key[0].split(","), input="value=%s tag=%s" % (pyv, key[2]),
+            api="Line.set/get_datatype/validate/field_to_s/str + Line(str)", levels=sorted(g["levels"]),
+            occurrences=g["n"],
+            case=dict(lvl=jobs[cid][1], mode=key[2], val=jobs[cid][3]), observed=obs, exc=info["exc"],
+            what="%s: xx(%s) = %s at vlevel %s (%d cases like this) -> %s %s" % (
+                key[0], key[2], pyv, sorted(g["levels"]), g["n"], json.dumps(obs), [e for e in info["exc"] if e])))
+    out.add_cov(evaluations=len(jobs), distinct_nontrivial=len(nontrivial), exhaustive=False,
+                values=len(vals), cases_validated_by_tlc=n,
+                rule="one case = (Python value, new tag or declared datatype, vlevel); non-trivial = distinct "
+                     "(value, tag mode) that was accepted, written without error and parsed back")
+    for (c, info), j in list(zip(res, jobs))[:: max(1, len(jobs) // 4)][:4]:
+        out.samples.append({"value": j[3]["py"], "mode": j[2], "vlevel": j[1], "datatype": c["dt"],
+                            "written": "".join(c["wchars"]), "readback": c["rb"]})
+    out.assumptions += [
+        "TLC and the TLA+ semantics of spec/Fields.tla (DefaultDTs, Representable, Subtypes, recognisers), TraceFields.tla",
+        "the value table of harness/fam_fields.py (c20_values): integers are built from symbolic triples sg*2^e+d, "
+        "strings from their characters, floats from literals whose finiteness is cross-checked with math.isfinite",
+        "equality of the read-back value is gfapy's / Python's own == (plus repr for floats, so -0.0 is told from 0.0)",
+        "J grammar is checked coarsely (bracketed, printable); JSON strings used as encoded values are chosen so that "
+        "the coarse recogniser is exact on them",
+    ]
+
+
+PROPS = {"C18": (check_c18, "model_checking"), "C19": (check_c19, "model_checking"),
+         "C20": (check_c20, "exploration")}
+
+
+# --------------------------------------------------------------------------
+# replay of one recorded violation
+
+def replay(prop, v, path):
+    _init_worker()
+    kind = v.get("kind")
+    if kind == "prog":
+        p = v["program"]
+        case, vals = run_program((0, p["lvl"], p["key"], tuple(p["codes"]), p["offset"], p["lax"]))
+        for e, (val, exc) in zip(case["ev"], vals):
+            print("  %-8s %-12s %s -> %s%s%s" % (e["k"], e["c"], json.dumps(val) if val else "", e["res"],
+                                               " (" + exc + ")" if exc else "", " [# INVALID]" if e["mark"] else ""))
+        rej, _ = validate_cases("prog", [case], "fields-replay")
+    elif kind == "lvl":
+        case, info = run_doc((0, v["doc"]))
+        for k, x in enumerate(info):
+            print("  vlevel %d: %s" % (k, x))
+        rej, _ = validate_cases("lvl", [case], "fields-replay")
+    elif kind == "clone":
+        case, info = run_clone((0, v["subject"]))
+        print("  ", info, {k: case[k] for k in ("cl", "eq", "isconn", "gfa")})
+        rej, _ = validate_cases("clone", [case], "fields-replay")
+    elif kind == "edit":
+        case, info = run_edit((0, v["subject"], v["target"], v["edit"]))
+        print("  edit %s of the %s -> %s %s" % (json.dumps(v["edit"]), v["target"], case["res"], info["exc"]))
+        print("  other copy: %r -> %r" % (case["ob"], case["oa"]))
+        print("  gfa changed: %s" % (case["gb"] != case["ga"]))
+        rej, _ = validate_cases("edit", [case], "fields-replay")
+    elif kind == "val":
+        c = v["case"]
+        case, info = run_value((0, c["lvl"], c["mode"], c["val"]))
+        print("  ", {k: case[k] for k in ("set", "dt", "vf", "val", "w", "s", "mark", "rb")},
+              "".join(case["wchars"]), info["exc"])
+        rej, _ = validate_cases("val", [case], "fields-replay")
+    else:
+        print("unknown violation kind", kind)
+        return 2
+    if 0 in rej:
+        print("REJECT clauses=%s" % ",".join(rej[0][0]))
+        print("VIOLATION property=%s replay=%s" % (prop, path))
+        return 1
+    print("replay passes")
+    return 0
+
+
+# --------------------------------------------------------------------------
+# selftest: corrupted records must be rejected with the expected clause
+
+def _expect(kind, case, clause, label, fails):
+    rej, _ = validate_cases(kind, [case], "fields-selftest")
+    got = rej.get(case["id"], ([], 0))[0]
+    ok = (clause in got) if clause else (got == [])
+    print("selftest %-46s expect %-28s got %s %s" % (label, clause or "(accepted)", got, "ok" if ok else "FAILED"))
+    if not ok:
+        fails.append(label)
+
+
+def selftest(mutant=True):
+    _init_worker()
+    fails = []
+    # ---- C18 programs (recorded from gfapy on fields without known defects, then corrupted)
+    c, _ = run_program((0, 3, "i:xi", ("set.wrongsyntax", "validate"), 0, False))
+    _expect("prog", c, None, "prog: invalid set at level 3 refused", fails)
+    d = copy.deepcopy(c); d["ev"][0].update(res="ok", kept="F")
+    _expect("prog", d, "C18.level3-not-at-set", "prog: pretend level 3 stored it", fails)
+    d = copy.deepcopy(c); d["ev"][0].update(kept="F")
+    _expect("prog", d, "C18.level3-not-at-set", "prog: pretend value changed by refused set", fails)
+    c, _ = run_program((0, 2, "i:xi", ("set.wrongsyntax", "write", "str"), 0, False))
+    _expect("prog", c, None, "prog: level 2 write reports", fails)
+    d = copy.deepcopy(c); d["ev"][1].update(res="ok")
+    _expect("prog", d, "C18.level2-not-at-write", "prog: pretend level 2 write silent", fails)
+    d = copy.deepcopy(c); d["lvl"] = 1; d["ev"][1].update(res="ok")
+    _expect("prog", d, None, "prog: level 1 write may be silent", fails)
+    c, _ = run_program((0, 1, "Z:xz", ("set.wrongsyntax", "validate", "vfield"), 0, False))
+    _expect("prog", c, None, "prog: validate reports at level 1", fails)
+    d = copy.deepcopy(c); d["ev"][2].update(res="ok")
+    _expect("prog", d, "C18.validate-missed", "prog: pretend validate_field passed", fails)
+    c, _ = run_program((0, 0, "i:xi", ("set.valid", "get", "str", "validate"), 0, False))
+    _expect("prog", c, None, "prog: valid set", fails)
+    d = copy.deepcopy(c); d["ev"][0].update(res="Error", kept="T")
+    _expect("prog", d, "C18.valid-rejected", "prog: pretend valid set refused", fails)
+    d = copy.deepcopy(c); d["ev"][2].update(mark=True)
+    _expect("prog", d, "C18.valid-rejected", "prog: pretend valid line marked INVALID", fails)
+    d = copy.deepcopy(c); d["ev"][1].update(res="FOREIGN")
+    _expect("prog", d, "foreign", "prog: pretend foreign exception", fails)
+    # ---- C18 documents
+    c, _ = run_doc((0, ["S\tA\t*\txx:i:1", "S\tB\t*", "L\tA\t+\tB\t-\t2M"]))
+    _expect("lvl", c, None, "lvl: document equal at all levels", fails)
+    d = copy.deepcopy(c); d["r"][0]["lines"][0]["tags"] = ["xx:i:2"]
+    _expect("lvl", d, "C18.level-dependence", "lvl: pretend level 0 wrote another tag", fails)
+    d = copy.deepcopy(c); d["r"][2]["dig"] = "0"
+    _expect("lvl", d, "C18.level-dependence", "lvl: pretend level 2 built another graph", fails)
+    d = copy.deepcopy(c); d["r"][1]["res"] = "Error"; d["r"][1]["lines"] = []
+    _expect("lvl", d, "C18.not-monotone", "lvl: pretend level 1 refused", fails)
+    # ---- C19
+    sub = dict(mode="conn", doc=DT_LINES1, idx=None)
+    gfa, _ = get_subject(dict(sub, idx=0))
+    idx = [i for i, o in enumerate(gfa.lines) if o.record_type == "P"][0]
+    sub["idx"] = idx
+    c, _ = run_clone((0, sub))
+    _expect("clone", c, None, "clone: path", fails)
+    d = copy.deepcopy(c); d["eq"] = "F"
+    _expect("clone", d, "C19.not-equal", "clone: pretend != ", fails)
+    d = copy.deepcopy(c); d["c"]["pos"][2] = "A+,C-"
+    _expect("clone", d, "C19.text-differs", "clone: pretend other text", fails)
+    d = copy.deepcopy(c); d["isconn"] = "T"
+    _expect("clone", d, "C19.not-detached", "clone: pretend connected", fails)
+    d = copy.deepcopy(c); d["gfa"] = "some"
+    _expect("clone", d, "C19.not-detached", "clone: pretend gfa set", fails)
+    lidx = [i for i, o in enumerate(gfa.lines) if o.record_type == "L" and not o.virtual][0]
+    sub = dict(sub, idx=lidx)
+    ed = dict(kind="inplace", path=["overlap", ["i", 0]], act=["setattr", "length"])
+    c, i = run_edit((0, sub, "clone", ed))
+    if i["tb"] == i["ta"]:
+        fails.append("edit did not change its target")
+    _expect("edit", c, None, "edit: CIGAR operation of the clone", fails)
+    d = copy.deepcopy(c); d["oa"] = i["ta"]
+    _expect("edit", d, "C19.shared-state", "edit: pretend the original changed too", fails)
+    d = copy.deepcopy(c); d["ga"] = d["gb"].replace("2M1D", "9M1D")
+    _expect("edit", d, "C19.shared-state", "edit: pretend the Gfa changed", fails)
+    # ---- C20
+    c, _ = run_value((0, 2, "new", v_ints([(0, 0, 1), (1, 8, 0)], True)))
+    _expect("val", c, None, "val: NumericArray [1, 256]", fails)
+    d = copy.deepcopy(c); d["dt"] = "J"
+    _expect("val", d, "C20.datatype", "val: pretend datatype J", fails)
+    d = copy.deepcopy(c); d["wchars"][5] = "I"
+    _expect("val", d, "C20.subtype", "val: pretend subtype I", fails)
+    d = copy.deepcopy(c); d["wchars"][7] = "\t"
+    _expect("val", d, "C20.grammar", "val: pretend a tab was written", fails)
+    d = copy.deepcopy(c); d["rb"]["eq"] = "F"
+    _expect("val", d, "C20.readback", "val: pretend read back differs", fails)
+    d = copy.deepcopy(c); d["rb"]["dt"] = "J"
+    _expect("val", d, "C20.readback", "val: pretend read back datatype differs", fails)
+    c, _ = run_value((0, 2, "Z", v_str("a\tb")))
+    _expect("val", c, None, "val: tab in Z reported", fails)
+    d = copy.deepcopy(c); d["val"] = "ok"
+    _expect("val", d, "C20.unrepresentable-emitted", "val: pretend validate passed", fails)
+    d = copy.deepcopy(c); d.update(w="ok", wchars=list("xx:Z:a\tb"))
+    _expect("val", d, "C20.unrepresentable-emitted", "val: pretend level 2 wrote it", fails)
+    c, _ = run_value((0, 1, "new", v_int(1, 63, 1)))
+    _expect("val", c, None, "val: 2^63+1", fails)
+    d = copy.deepcopy(c); d["dt"] = "f"; d["wchars"][3] = "f"
+    _expect("val", d, "C20.datatype", "val: pretend int got f", fails)
+    # ---- a seeded mutant of gfapy: clone copies lists shallowly (survives the test-suite)
+    if mutant:
+        import shutil, subprocess, tempfile
+        tmp = tempfile.mkdtemp(prefix="fields-mut-", dir="/tmp")
+        try:
+            dst = os.path.join(tmp, "repo")
+            shutil.copytree(REPO, dst, ignore=shutil.ignore_patterns(".git"))
+            fn = os.path.join(dst, "gfapy/line/common/cloning.py")
+            src = open(fn).read()
+            if "data_cpy[k] = deepcopy(v)" not in src:
+                raise MachineryError("mutation point not found in cloning.py")
+            open(fn, "w").write(src.replace("data_cpy[k] = deepcopy(v)", "data_cpy[k] = v[:]", 1))
+            code = ("import sys, json; sys.path.insert(0, %r)\n"
+                    "from harness import fam_fields as ff, report\n"
+                    "out = report.Outcome('C19', 'quick', 1, 'model_checking')\n"
+                    "ff.check_c19(out, 'quick', 1)\n"
+                    "print('MUT', json.dumps(sorted({v['edit']['path'][0] for v in out.violations "
+                    "if v['kind'] == 'edit' and 'C19.shared-state' in v['clauses']})))\n" % tlc.VERIF)
+            env = dict(os.environ, VERIF_REPO=dst, VERIF_WORK=os.path.join(tmp, "work"))
+            p = subprocess.run([sys.executable, "-c", code], env=env, stdout=subprocess.PIPE,
+                               stderr=subprocess.STDOUT, text=True, timeout=1200)
+            hit = [l for l in p.stdout.splitlines() if l.startswith("MUT ")]
+            fields = json.loads(hit[0][4:]) if hit else []
+            ok = "overlap" in fields and "alignment" in fields
+            print("selftest mutant shallow list copy in clone: shared fields found %s %s" % (fields, "ok" if ok else "FAILED"))
+            if not ok:
+                print(p.stdout[-2000:])
+                fails.append("mutant shallow clone")
+        finally:
+            shutil.rmtree(tmp, ignore_errors=True)
+    print("selftest fields: %s" % ("PASS" if not fails else "FAIL " + repr(fails)))
+    return 0 if not fails else 1
+
+
+if __name__ == "__main__":
+    if len(sys.argv) > 1 and sys.argv[1] == "selftest":
+        sys.exit(selftest(mutant="--no-mutant" not in sys.argv))
